@@ -111,6 +111,9 @@ func genTokFlags(t *rapid.T) uint {
 func genTokList(t *rapid.T, flags uint) TokListSpec {
 	l := TokListSpec{Flags: flags}
 	n := []int{0, 1, 1, 2, 2, 3, 3, 4, 5}[uniformIdx(t, "tl_n", 9)]
+	if oneIn(t, "tl_needle", 40) {
+		n = manyN(t, "tl_many", 0)
+	}
 	ws := rapid.IntRange(0, 2).Draw(t, "tl_ws") != 0
 	for i := 0; i < n; i++ {
 		var it TokItem
@@ -188,7 +191,9 @@ func tailAfterEOL(t *rapid.T) B {
 
 func genCaps(t *rapid.T, label string, n int) int {
 	// -1 = none/built-in, else 0..n+1
-	switch weighted(t, label+"_k", 3, 5, 2) {
+	switch weighted(t, label+"_k", 6, 10, 4, 1) {
+	case 3:
+		return manyN(t, label+"_many", 0) // capacities around the sizes fixed scratch arrays and narrow counters use
 	case 0:
 		return -1
 	case 1:
